@@ -14,6 +14,7 @@ for d in "$VERIF"/seeded/$PAT/; do
   # only C19-E needs the Miri stratum; skip it elsewhere to save time
   nomiri=1; tier=quick
   [ "$id" = "C19-E" ] && nomiri=""
+  [ "$id" = "C19-P" ] && nomiri=""
   # C19-N is only visible to the large-Unicode-class Miri scenario of the thorough tier
   if [ "$id" = "C19-N" ]; then nomiri=""; tier=thorough; fi
   out="$(VERIF_TIER="$tier" VERIF_MIRI_WORLDS="$([ "$id" = "C19-N" ] && echo 0 || echo "${VERIF_MIRI_WORLDS:-2}")" VERIF_NO_MIRI="$nomiri" VERIF_WORLDS="${VERIF_WORLDS:-240000}" "$VERIF/try_patch.sh" "$d/patch.diff" "$prop" 2>&1)"
